@@ -50,7 +50,10 @@ Templates ==
     Node("for", "", <<Node("lete", "", <<Id("i"), Num("0")>>), Bin("<", Id("i"), Num("2")), Node("post", "++", <<Id("i")>>), E(A)>>),
     Node("for", "", <<Nil, Nil, Nil, Blk(<<>>)>>),
     Node("for", "", <<Node("asg", "=", <<Id("i"), Num("0")>>), Nil, Nil, E(A)>>),
-    Node("fdecl", "", <<Id("f"), PList(<<Id("p"), Id("q")>>), Blk(<<Ret(Id("p"))>>)>>) }
+    Node("fdecl", "", <<Id("f"), PList(<<Id("p"), Id("q")>>), Blk(<<Ret(Id("p"))>>)>>),
+    E(Bin("+", Node("un", "-", <<A>>), B)),
+    Let("y", Node("arr", "", <<Num("1"), Bin("*", Node("un", "!", <<A>>), Num("2"))>>)),
+    E(Node("call", "", <<Id("f"), Bin("-", Node("un", "-", <<A>>), B), Id("c")>>)) }
 
 
 \* all statement sequences of length n over Templates, as a set of tuples
